@@ -26,7 +26,8 @@ class Exec:
                        prompt_storage=wcfg.get("prompt_storage", "default"),
                        use_simgit=wcfg.get("use_simgit", False),
                        gitconfig=wcfg.get("gitconfig"),
-                       config_extra=wcfg.get("config_extra"))
+                       config_extra=wcfg.get("config_extra"),
+                       object_format=wcfg.get("object_format"))
         self.ledger = Ledger()
         self.sessions = list(trace.get("sessions", []))
         self.events = []
